@@ -469,6 +469,13 @@ func check(prop string, args []string) int {
 	if len(samples) == 0 {
 		samples = append(samples, "no path completed")
 	}
+	var oblTotal, oblProved int64
+	for _, o := range obl {
+		if o.Kind == "assert" {
+			oblTotal += o.Paths
+			oblProved += o.Proved
+		}
+	}
 	bounds, outside, assumptions := readHarnessMeta(prop)
 	fnames := keys(funcs)
 	cov := map[string]interface{}{
@@ -480,7 +487,9 @@ func check(prop string, args []string) int {
 		"functions_encoded":             fnames,
 		"boundary_models_hit":           keys(models),
 		"harnesses":                     reports,
-		"obligations":                   obl,
+		"obligation_detail":             obl,
+		"obligations":                   oblTotal,
+		"discharged":                    oblProved,
 		"bounds":                        bounds,
 		"outside_claim":                 outside,
 		"queries_discharged": map[string]int64{
